@@ -1476,3 +1476,101 @@ def w15(facts, tier):
                     yield ob(["C13", "C15", "C01"], "W15", key, "violation" if bad else "pass", where(rf if bad else wf, y),
                              f"{key}: " + ("; ".join(bad) + ": the stored flags do not survive a write/read cycle (a recorded interface definition "
                                            "comes back with different Send/Sync/Unpin bounds)" if bad else f"{len(wbits)} flags use the same bits on both sides: {wbits}"))
+
+
+# ---------------------------------------------------------------------------------------------
+# W16: the element count a sequence writer emits is the length of the very container whose elements it then emits
+
+def _count_and_iter_receivers(facts, g):
+    from .introspect_rules import recv_path
+    counts, iters = [], []
+    local_seq_helpers = {}
+    for x in walk(g["body"]):
+        k = x.get("k")
+        if k == "Call":
+            c = callee(x) or ""
+            t = (x.get("res") or {}).get("fn") or x.get("fn")
+            if c.endswith("::write_usize") and len(x.get("args", [])) == 2:
+                a = x["args"][1]
+                ln = next((y for y in walk(a) if y.get("k") == "Call" and (callee(y) or "").endswith("::len") and y.get("args")), None)
+                if ln is None and peel(a).get("k") == "Var":
+                    # `let l = item.len(); write_usize(l)`
+                    for z in walk(g["body"]):
+                        if z.get("k") == "LetS" and z["pat"].get("k") == "Bind" and z["pat"]["v"] == peel(a)["v"] and z.get("init") is not None:
+                            ln = next((y for y in walk(z["init"]) if y.get("k") == "Call" and (callee(y) or "").endswith("::len") and y.get("args")), None)
+                if ln is not None:
+                    counts.append((recv_path(g, ln["args"][0]), x))
+            h = facts.fns.get(t)
+            if h is not None and h["crate"] == "savefile" and not (h.get("impl") or {}).get("trait") and h["id"] != g["id"] and x.get("args") \
+                    and re.search(r"serialize", h["id"]) and "Serializer<" not in h["id"].split("::")[1 if h["id"].startswith("savefile::") else 0]:
+                # a local helper that writes a count and the elements of its first argument
+                p = recv_path(g, x["args"][0])
+                counts.append((p, x))
+                iters.append((p, x))
+        elif k == "For":
+            it = x["iter"]
+            tgt = it
+            while True:
+                tt = peel_block(peel(tgt))
+                if tt.get("k") == "Call" and (callee(tt) or "").endswith(("::iter", "::into_iter", "::iter_mut")) and tt.get("args"):
+                    tgt = tt["args"][0]
+                    continue
+                break
+            iters.append((recv_path(g, tgt), x))
+    return counts, iters
+
+
+@rule("W16", ["C01", "C02"], floor=4, doc="sequence writers: the length prefix is len() of the whole container (a parameter or self, not a part of it "
+      "such as one half of as_slices()), and every element loop runs over that same container")
+def w16(facts, tier):
+    from .wire_rules import impl_pairs
+    sers, _ = impl_pairs(facts)
+    seen = set()
+    todo = []
+    for (ty, fid), (f, _) in sers.items():
+        st = (f.get("impl") or {}).get("self_ty", "")
+        if st.startswith(SEQ_HEADS):
+            todo.append(f)
+    fns = []
+    stack = list(todo)
+    while stack:
+        g = stack.pop()
+        if g["id"] in seen:
+            continue
+        seen.add(g["id"])
+        fns.append(g)
+        for x in walk(g["body"]):
+            if x.get("k") == "Call":
+                t = (x.get("res") or {}).get("fn") or x.get("fn")
+                h = facts.fns.get(t)
+                if h is not None and h["crate"] == "savefile" and not (h.get("impl") or {}).get("trait") \
+                        and not h["id"].startswith(("savefile::Serializer<", "savefile::Deserializer<")):
+                    stack.append(h)
+    for g in sorted(fns, key=lambda z: z["id"]):
+        counts, iters = _count_and_iter_receivers(facts, g)
+        if not counts:
+            continue
+        params = {p["pat"]["v"].split("#")[0] for p in g["params"] if p.get("pat") and p["pat"].get("k") == "Bind"}
+        bad = []
+        whole = lambda p: len(p) == 1 and p[0] in params
+        cps = {p for p, _ in counts}
+        for p, x in counts:
+            if "?" in p:
+                continue
+            if not whole(p):
+                bad.append(f"the element count written is the length of `{'.'.join(p)}`, a part of the container")
+        VIEWS = ("<chunks>", "<chunks_exact>", "<remainder>", "<iter>", "<as_slice>", "<into_iter>")
+        raw_iters = [p for p, _ in iters]
+        if any("<chunks_exact>" in p and "<remainder>" not in p for p in raw_iters) and not any("<remainder>" in p for p in raw_iters):
+            bad.append("elements are written per `chunks_exact` chunk but the remainder is never written")
+        iters = [(tuple(t for t in p if t not in VIEWS), x) for p, x in iters]
+        for p, x in iters:
+            if "?" in p or not p or p[0] not in params:
+                continue
+            if p not in cps and any(q[0] == p[0] for q in cps):
+                bad.append(f"elements of `{'.'.join(p)}` are written although the count is that of `{'.'.join(sorted(cps)[0])}`")
+        undecided = any("?" in p for p, _ in counts)
+        yield ob(["C01", "C02"], "W16", g["id"], "violation" if bad else ("undecided" if undecided else "pass"), where(g, counts[0][1]),
+                 f"{g['id']}: " + ("; ".join(sorted(set(bad))[:2]) + ": the stored count and the stored elements disagree for a container whose "
+                                   "storage is split (a wrapped VecDeque)" if bad else
+                                   f"count and elements are those of `{'.'.join(sorted(cps)[0])}`"))
